@@ -21,15 +21,20 @@ def showSig (s : Bytes) : String :=
 def showPk (pk : Bytes) : String :=
   s!"ok {Hex.encodeWire pk} {Hex.encodeWire ((addressOf sha3_256 pk).drop 1)}"
 
-def txVerdict (js : Bytes) : String :=
-  match C12.newTransactionFromJSON C12.Glue.env js false with
+def verdictOf (otx : Option C12.TxV3) : String :=
+  match otx with
   | none => "err"
   | some tx =>
     let d := tx.d
     let sig : Option Bytes := if d.signature.isEmpty then none else parseSignature d.signature
+    -- `C12.txID` is the empty id when the hash cannot be computed (unhashable data):
+    -- `recoverPublicKey` then refuses (length 0) and the transaction is rejected
     if txVerify Secp.recoverCompact sha3_256 d.value d.stepLimit
         (dataOk d.dataType d.data d.value) sig
         (C12.txID C12.Glue.env tx) d.from_ then "verified" else "rejected"
+
+def txVerdict (js : Bytes) : String :=
+  verdictOf (C12.newTransactionFromJSON C12.Glue.env js false)
 
 def step (s : Unit) (toks : List String) : Unit × String :=
   let out := match toks with
@@ -69,6 +74,10 @@ def step (s : Unit) (toks : List String) : Unit × String :=
       match Secp.pubOf (beNat d) with
       | some pk => showPk pk
       | none => "err"
+    | none => "bad-op"
+  | "binverify" :: h :: _ =>
+    match Hex.decodeWire h with
+    | some bs => verdictOf (C12.newTransaction C12.Glue.env bs)
     | none => "bad-op"
   | "txverify" :: h :: _ =>
     match Hex.decodeWire h with
